@@ -11,6 +11,7 @@ import (
 	"strings"
 	"sync"
 	"sync/atomic"
+	"time"
 
 	"github.com/libp2p/go-libp2p/core/crypto"
 
@@ -56,6 +57,9 @@ import (
 //	    code under test keeps nothing outside the directory (an assumption listed in the evidence; search (1) does not
 //	    rely on it) and every step has just confirmed that the disk agrees with the model.
 //
+// Both searches execute one history of each pair that differs only by swapping the passphrases P and Q (or the
+// directories a and b), see seqCanonical; the numbers before and after that reduction are in the evidence.
+//
 // Tags are computed from the history and the model only (operation, what the target held, how the passphrase relates
 // to the saved one, what the model expects of the call), never from an error text.
 
@@ -97,17 +101,26 @@ func seqFixedKey() []byte {
 
 var seqJunkKey = []byte("not a key") // ImportPrivateKey must refuse it; whatever it does, a saved key must survive
 
-// seqAlphabet: every operation on every directory with every passphrase; xfer between every ordered pair of
-// directories (src == dst: re-encrypt in place under another passphrase).
+// seqAlphabet. One directory: create, load, export, import of a fixed key, export→import in place (re-encrypt under
+// another passphrase), each with every passphrase; junk import; delete by hand. Two directories: create, load, export
+// on each with every passphrase, export(src)→import(dst) for both ordered pairs with every passphrase, junk import and
+// delete on each (import of a fixed key and in-place re-encryption are left to the one-directory enumeration).
 func seqAlphabet(dirs, passes []string) []seqOp {
 	var out []seqOp
+	kinds := []string{"create", "load", "export"}
+	if len(dirs) == 1 {
+		kinds = append(kinds, "import-fixed")
+	}
 	for _, d := range dirs {
-		for _, kind := range []string{"create", "load", "export", "import-fixed"} {
+		for _, kind := range kinds {
 			for _, p := range passes {
 				out = append(out, seqOp{Op: kind, Dir: d, Pass: p})
 			}
 		}
 		for _, s := range dirs {
+			if len(dirs) > 1 && s == d {
+				continue
+			}
 			for _, p := range passes {
 				out = append(out, seqOp{Op: "xfer", Dir: d, Src: s, Pass: p})
 			}
@@ -115,6 +128,26 @@ func seqAlphabet(dirs, passes []string) []seqOp {
 		out = append(out, seqOp{Op: "import-junk", Dir: d}, seqOp{Op: "delete", Dir: d})
 	}
 	return out
+}
+
+// seqCanonical: symmetry reduction. The two passphrases P and Q enter every history only through which operations use
+// equal ones, and the two directories only through which operations share one; swapping P with Q (or a with b) maps a
+// history onto an equivalent one. Of each such pair exactly one is kept: the one whose first passphrase-bearing
+// operation uses P (never Q; the empty passphrase E of the thorough tier is not part of the symmetry) and whose first
+// operation works on directory a.
+func seqCanonical(ops []seqOp) bool {
+	if len(ops) > 0 && ops[0].Dir != "a" {
+		return false
+	}
+	for _, o := range ops {
+		if o.Pass == "P" || o.Pass == "E" {
+			return true
+		}
+		if o.Pass == "Q" {
+			return false
+		}
+	}
+	return true
 }
 
 func alphabetNames(a []seqOp) []string {
@@ -144,6 +177,7 @@ type seqRun struct {
 	stopped bool   // the history ended early (violation, or a state the model does not describe)
 	last    string // result class of the last executed step
 	ops     int
+	kdf     int  // Argon2 key derivations the operations must have made according to the model (work measure)
 	wrote   bool // at least one successful write: the history reached key derivation
 	notes   map[string]bool
 }
@@ -247,6 +281,9 @@ func (s *seqRun) settle(i int, expect string) {
 			if !exists {
 				what = "is gone"
 			}
+			if exists {
+				s.kdf++
+			}
 			sg, err, pan := safeLoad(s.path(d), seqPassBytes[k.pass])
 			pre := fmt.Sprintf("the key file of directory %s (%s key saved under %s) %s after an operation that is %s for it, and ", d, k.origin, k.pass, what, expect)
 			switch {
@@ -347,6 +384,12 @@ func (s *seqRun) step(i int) {
 	k := s.m[op.Dir]
 	pass := seqPassBytes[op.Pass]
 	s.ops++
+	switch {
+	case op.Op == "xfer" && s.m[op.Src] != nil:
+		s.kdf += 2
+	case op.Op == "import-fixed", op.Op == "create" && k == nil, (op.Op == "load" || op.Op == "export") && k != nil:
+		s.kdf++
+	}
 	switch op.Op {
 	case "create":
 		expect := "a write"
@@ -580,7 +623,29 @@ func (s *seqRun) stateKey() string {
 	return strings.Join(parts, " | ")
 }
 
-var seqOpsExecuted atomic.Int64
+var seqOpsExecuted, seqKDF atomic.Int64
+
+// observations that are recorded and not judged (see the comment at the top), by name -> number of histories
+var (
+	seqNotesMu sync.Mutex
+	seqNotes   = map[string]int{}
+)
+
+func seqNote(n string) {
+	seqNotesMu.Lock()
+	seqNotes[n]++
+	seqNotesMu.Unlock()
+}
+
+func seqNotesSnapshot() map[string]int {
+	seqNotesMu.Lock()
+	defer seqNotesMu.Unlock()
+	out := map[string]int{}
+	for k, v := range seqNotes {
+		out[k] = v
+	}
+	return out
+}
 
 // runSequence executes one whole history on fresh directories under root.
 func runSequence(c *tcase, root string) (v verdict, key string, stopped bool, notes []string) {
@@ -598,6 +663,7 @@ func runSequence(c *tcase, root string) (v verdict, key string, stopped bool, no
 		}
 	}
 	seqOpsExecuted.Add(int64(s.ops))
+	seqKDF.Add(int64(s.kdf))
 	v.viol = s.viol
 	v.nontrivial = s.wrote
 	v.outcome = "sequence|" + s.last
@@ -621,7 +687,8 @@ func (c *tcase) describeSeq() string {
 // ---------------------------------------------------------------------------------------------------------------
 // the two searches
 
-// seqOneDirCases: every history of exactly depth operations over the one-directory alphabet, in lexicographic order.
+// seqOneDirCases: every history of exactly depth operations over the one-directory alphabet, in lexicographic order
+// (the canonical one of each symmetric pair, see seqCanonical).
 func seqOneDirCases(alpha []seqOp, depth int) []*tcase {
 	var out []*tcase
 	idx := make([]int, depth)
@@ -630,7 +697,9 @@ func seqOneDirCases(alpha []seqOp, depth int) []*tcase {
 		for i, a := range idx {
 			seq[i] = alpha[a]
 		}
-		out = append(out, &tcase{Section: "sequence", Op: "sequence", Origin: "created", Mut: mutation{Kind: "none"}, SeqDirs: []string{"a"}, Seq: seq})
+		if seqCanonical(seq) {
+			out = append(out, &tcase{Section: "sequence", Op: "sequence", Origin: "created", Mut: mutation{Kind: "none"}, SeqDirs: []string{"a"}, Seq: seq})
+		}
 		i := depth - 1
 		for i >= 0 {
 			idx[i]++
@@ -648,34 +717,38 @@ func seqOneDirCases(alpha []seqOp, depth int) []*tcase {
 
 type seqBFSResult struct {
 	stats     explore.BFSStats
+	executed  int64 // histories really executed (the others were the non-canonical twins of a symmetric pair)
 	nontriv   int64
 	alphabet  []string
 	depth     int
-	notes     map[string]int
 	engineErr string
 }
 
 // seqTwoDirSearch: explicit-state search over histories on two directories.
-func seqTwoDirSearch(r *vf.Run, root string, passes []string, depth, workers int, tally func(vf.Violation), sample func(string)) seqBFSResult {
+func seqTwoDirSearch(r *vf.Run, root string, passes []string, depth, workers int, deadline time.Duration, tally func(vf.Violation), sample func(string)) seqBFSResult {
 	dirs := []string{"a", "b"}
 	alpha := seqAlphabet(dirs, passes)
-	res := seqBFSResult{alphabet: alphabetNames(alpha), depth: depth, notes: map[string]int{}}
-	var nontriv atomic.Int64
+	res := seqBFSResult{alphabet: alphabetNames(alpha), depth: depth}
+	var nontriv, executed atomic.Int64
 	var mu sync.Mutex
-	res.stats = explore.BFS(explore.BFSConfig{Depth: depth, Actions: len(alpha), Workers: workers}, func(hist []int) explore.Step {
+	res.stats = explore.BFS(explore.BFSConfig{Depth: depth, Actions: len(alpha), Workers: workers, Deadline: deadline}, func(hist []int) explore.Step {
 		c := &tcase{Section: "sequence", Op: "sequence", Origin: "created", Mut: mutation{Kind: "none"}, SeqDirs: dirs}
 		for _, a := range hist {
 			c.Seq = append(c.Seq, alpha[a])
 		}
+		if !seqCanonical(c.Seq) {
+			return explore.Step{Prune: true}
+		}
+		executed.Add(1)
 		v, key, stopped, notes := runSequence(c, root)
 		mu.Lock()
 		if strings.HasPrefix(v.outcome, "sequence|engine:") && res.engineErr == "" {
 			res.engineErr = v.outcome
 		}
-		for _, n := range notes {
-			res.notes[n]++
-		}
 		mu.Unlock()
+		for _, n := range notes {
+			seqNote(n)
+		}
 		for _, x := range v.viol {
 			r.Report(x)
 			tally(x)
@@ -690,5 +763,6 @@ func seqTwoDirSearch(r *vf.Run, root string, passes []string, depth, workers int
 		return explore.Step{Key: key, Prune: stopped}
 	})
 	res.nontriv = nontriv.Load()
+	res.executed = executed.Load()
 	return res
 }
